@@ -516,6 +516,11 @@ def runPathC (loc : List String) (float : Bool) (returnsNode : Bool) :
         -- the path cannot be taken, nothing is to be checked on it
         if n.held > 0 || n.wraps > 0 || n.inCont > 0 then .ok else
         runPathC loc float returnsNode s cs rest
+    -- the counter of a handle: only `init` / `__dealloc__` / `incref` / `decref` may change it
+    | .fieldAdd h _ => .bad ("the counter `_ref` of a handle is changed outside init / __dealloc__ / incref / decref: " ++ h) 0
+    | .fieldSet h _ => .bad ("the counter `_ref` of a handle is changed outside init / __dealloc__ / incref / decref: " ++ h) 0
+    | .fieldTest _ _ _ _ => runPathC loc float returnsNode s cs rest
+    | .handleNode _ _ => runPathC loc float returnsNode s cs rest
     | .setField x f y =>
       -- `x.next = y`: the collision chain of the unique table, (ab)used as a traversal mark; the
       -- field carries no reference, nothing moves
@@ -613,10 +618,129 @@ def initOk (m : CMethod) : Bool :=
          match e with | .ref _ fn => isRefFn fn | _ => true)
     | _ => false
 
+/-! #### the counter `_ref` of a CUDD handle
+
+`dd.cudd.Function` / `dd.cudd_zdd.Function` carry `cdef public int _ref`, documented as a lower
+bound on the reference count of the node; the wrappers maintain it as THE NUMBER OF LIBRARY
+REFERENCES THE HANDLE OWNS: `init` sets it to 1 and takes one, `incref` adds one and takes one,
+`decref` subtracts one and gives one back, `__dealloc__` gives back one unless the counter is 0.
+The invariant is checked per path: the change of the counter equals the references taken minus
+the references given back; the counter is never decremented unless the path conditions imply
+that it is positive; `__dealloc__` gives nothing back only where they imply that it is 0.
+
+The value of the counter is followed as an interval `[lo, hi]` (unknown ends = `none`) refined
+by the path conditions `h._ref <rel> k`; a path with contradictory conditions cannot be taken. -/
+
+structure FieldSt where
+  lo : Option Int := none
+  hi : Option Int := none
+  delta : Int := 0
+  handle : Option String := none
+deriving Repr, Inhabited
+
+def FieldSt.feasible (f : FieldSt) : Bool :=
+  match f.lo, f.hi with
+  | some a, some b => decide (a ≤ b)
+  | _, _ => true
+
+def FieldSt.atMost (f : FieldSt) (k : Int) : FieldSt :=
+  { f with hi := match f.hi with | none => some k | some b => some (if b ≤ k then b else k) }
+
+def FieldSt.atLeast (f : FieldSt) (k : Int) : FieldSt :=
+  { f with lo := match f.lo with | none => some k | some a => some (if a ≥ k then a else k) }
+
+def FieldSt.notEq (f : FieldSt) (k : Int) : FieldSt :=
+  let f1 := if f.lo == some k then { f with lo := some (k + 1) } else f
+  if f1.hi == some k then { f1 with hi := some (k - 1) } else f1
+
+/-- the interval after assuming `value <rel> k` (`holds`) or its negation; `none`: unknown relation -/
+def FieldSt.assume (f : FieldSt) (rel : String) (k : Int) (holds : Bool) : Option FieldSt :=
+  match rel, holds with
+  | "==", true | "!=", false => some ((f.atMost k).atLeast k)
+  | "==", false | "!=", true => some (f.notEq k)
+  | "<", true | ">=", false => some (f.atMost (k - 1))
+  | "<", false | ">=", true => some (f.atLeast k)
+  | "<=", true | ">", false => some (f.atMost k)
+  | "<=", false | ">", true => some (f.atLeast (k + 1))
+  | _, _ => none
+
+inductive FieldVerdict
+  | infeasible
+  | bad (why : String)
+  | done (f : FieldSt)
+deriving Repr, Inhabited
+
+def FieldSt.sameHandle (f : FieldSt) (h : String) : Bool :=
+  match f.handle with
+  | none => true
+  | some g => g == h
+
+def fieldRun : FieldSt → List CEv → FieldVerdict
+  | f, [] => .done f
+  | f, ev :: rest =>
+    match ev with
+    | .fieldTest h rel k holds =>
+      if !f.sameHandle h then .bad "the counters of two handles on one path" else
+      match f.assume rel k holds with
+      | none => .bad ("unknown relation " ++ rel)
+      | some f' => if f'.feasible then fieldRun { f' with handle := some h } rest else .infeasible
+    | .fieldAdd h k =>
+      if !f.sameHandle h then .bad "the counters of two handles on one path" else
+      -- a decrement needs path conditions that make the counter large enough
+      if k < 0 && !(match f.lo with | some a => decide (a + k ≥ 0) | none => false) then
+        .bad "the counter is decremented where it is not known to be positive" else
+      fieldRun { lo := f.lo.map (· + k), hi := f.hi.map (· + k), delta := f.delta + k, handle := some h } rest
+    | .fieldSet h k =>
+      if !f.sameHandle h then .bad "the counters of two handles on one path" else
+      match f.lo, f.hi with
+      | some a, some b =>
+        if a != b then .bad "the counter is overwritten where its value is not known" else
+        fieldRun { lo := some k, hi := some k, delta := f.delta + (k - a), handle := some h } rest
+      | _, _ => .bad "the counter is overwritten where its value is not known"
+    | _ => fieldRun f rest
+
+def netRefs (es : List CEv) : Int := (countRefAll es : Int) - (countDerefAll es : Int)
+
+def CEv.isFieldEv : CEv → Bool
+  | .fieldAdd .. | .fieldSet .. | .fieldTest .. => true
+  | _ => false
+
+def CEv.isFieldWrite : CEv → Bool
+  | .fieldAdd .. | .fieldSet .. => true
+  | _ => false
+
+/-- the function works on a handle (`h.node`), not on a raw node (`_incref(u: DdRef)`) -/
+def handleBased (role : CRole) (es : List CEv) : Bool :=
+  role == .handleInit || role == .handleDealloc ||
+  es.any fun e => match e with | .handleNode .. => true | _ => false
+
+/-- One path of `init` / `__dealloc__` / `incref` / `decref` of a back end whose handles carry the
+counter.  Documented exception: `decref(u, _direct=True)` gives a library reference back and
+leaves the counter alone (`dd/_copy.py` uses it to hand a reference over to another handle). -/
+def fieldPathOk (role : CRole) (es : List CEv) : Bool :=
+  -- a fresh object: Cython zero-initialises the attribute
+  let start : FieldSt := if role == .handleInit then { lo := some 0, hi := some 0 } else {}
+  match fieldRun start es with
+  | .infeasible => true
+  | .bad _ => false
+  | .done f =>
+    (if handleBased role es then
+       (if role == .refDec && hasGuard "_direct" true es then f.delta == 0 else f.delta == netRefs es)
+     else !es.any CEv.isFieldWrite) &&
+    -- `__dealloc__` may keep everything only when the handle owns nothing
+    (role != .handleDealloc || endsInRaise es || netRefs es != 0 || f.hi == some 0) &&
+    -- after `init` the counter is known, and it is what was taken
+    (role != .handleInit || endsInRaise es || (f.lo == some (netRefs es) && f.hi == some (netRefs es)))
+
+def fieldMethodOk (hasField : Bool) (m : CMethod) : Bool :=
+  if hasField then m.paths.all fun p => fieldPathOk m.role p.events
+  else m.paths.all fun p => !p.events.any CEv.isFieldEv
+
 /-- `Function.__dealloc__`: a path that does not raise gives back exactly one reference (on the
-node attribute), or none when it is guarded by `self._ref == 0` (the handle's own counter says
-that its reference was already given back through `decref`); never takes one -/
-def deallocOk (m : CMethod) : Bool :=
+node attribute), or none — which `fieldPathOk` accepts only where the path conditions say that the
+handle's counter is 0 (the reference was already given back through `decref`), and only in a
+back end whose handles have the counter; never takes one -/
+def deallocOk (hasField : Bool) (m : CMethod) : Bool :=
   !m.paths.isEmpty &&
   m.paths.any (fun p => !endsInRaise p.events && countDerefAll p.events == 1) &&
   m.paths.all fun p =>
@@ -624,8 +748,7 @@ def deallocOk (m : CMethod) : Bool :=
     (p.events.all fun e => match e with | .deref _ fn => isDerefFn fn | _ => true) &&
     (endsInRaise p.events && countDerefAll p.events == 0 ||
      !endsInRaise p.events &&
-       (countDerefAll p.events == 1 && !hasGuard "self._ref == 0" true p.events ||
-        countDerefAll p.events == 0 && hasGuard "self._ref == 0" true p.events))
+       (countDerefAll p.events == 1 || countDerefAll p.events == 0 && hasField))
 
 /-- `incref` / `decref` / `_incref` / `_decref`: the explicit counters; each path that does not
 raise moves exactly one reference in the direction the name says -/
@@ -647,13 +770,16 @@ def CEv.isContEv : CEv → Bool
 def noContEvents (m : CMethod) : Bool :=
   m.paths.all fun p => p.events.all fun e => !e.isContEv
 
-def methodOk (loc : List String) (m : CMethod) : Bool :=
+/-- `hasField`: the handles of the back end carry the counter `_ref` (`Gen.cRefFieldBackends`) -/
+def methodOkF (hasField : Bool) (loc : List String) (m : CMethod) : Bool :=
   match m.role with
   | .plain => m.paths.all (pathBalanced loc m)
-  | .wrapFn => wrapFnOk m && noContEvents m
-  | .handleInit => initOk m && noContEvents m
-  | .handleDealloc => deallocOk m && noContEvents m
-  | .refInc => refApiOk true m && noContEvents m
-  | .refDec => refApiOk false m && noContEvents m
+  | .wrapFn => wrapFnOk m && noContEvents m && fieldMethodOk false m
+  | .handleInit => initOk m && noContEvents m && fieldMethodOk hasField m
+  | .handleDealloc => deallocOk hasField m && noContEvents m && fieldMethodOk hasField m
+  | .refInc => refApiOk true m && noContEvents m && fieldMethodOk hasField m
+  | .refDec => refApiOk false m && noContEvents m && fieldMethodOk hasField m
+
+def methodOk (loc : List String) (m : CMethod) : Bool := methodOkF false loc m
 
 end DD
